@@ -5,6 +5,7 @@ import (
 	"sort"
 	"strings"
 
+	"github.com/AdguardTeam/urlfilter"
 	"github.com/AdguardTeam/urlfilter/filterlist"
 	"github.com/AdguardTeam/urlfilter/rules"
 
@@ -64,7 +65,7 @@ type truth struct {
 	fV4, fV6 bag
 }
 
-func computeTruth(e *workload.Engines, o *workload.Op) *truth {
+func computeTruth(e *workload.Engines, o *workload.Op, scanHosts bool) *truth {
 	t := &truth{nrs: bag{}, v4: bag{}, v6: bag{}}
 	res := workload.Exec(e, o)
 	t.full = res.CanonFull()
@@ -80,7 +81,7 @@ func computeTruth(e *workload.Engines, o *workload.Op) *truth {
 		// legitimately served.  Truth for host rules is therefore every host
 		// rule of the lists whose own Match accepts the name.
 		sc := e.Storage.NewRuleStorageScanner()
-		for sc.Scan() {
+		for scanHosts && sc.Scan() {
 			r, _ := sc.Rule()
 			if hr, ok := r.(*rules.HostRule); ok && hr.Match(o.Host) {
 				if hr.IP.Is4() {
@@ -424,6 +425,38 @@ func runC19Seq(ch *core.Chooser, env *Env, out *Outcome) *Outcome {
 		ch.End()
 	}
 
+	// after the fault the tail of the history is asked again and again in some
+	// runs: error counters, back-off and circuit breakers need many failures
+	reps := []int{1, 1, 1, 1, 1, 1, 6, 40}[ch.Intn("c19.reps", 8)]
+	// rarely: ONE big file-backed list and a flood that materialises every
+	// rule of it before the fault (bounded caches, eviction), DNS engine only
+	big := ch.Intn("c19.big", 40) == 39
+	bigN := 0
+	if big {
+		bigN = 8500 + ch.Intn("c19.bign", 3000)
+		var b strings.Builder
+		for i := 0; i < bigN; i++ {
+			fmt.Fprintf(&b, "||b%d.example.org^\n", i)
+		}
+		l0 := lists[0]
+		l0.Text = b.String()
+		if !l0.File && !l0.Faulty {
+			l0.File = true
+		}
+		lists = []disk.ListPlan{l0}
+		hist = hist[:0]
+		for i := 0; i < bigN; i += 83 {
+			hist = append(hist, workload.Op{Kind: workload.OpDNS, Host: fmt.Sprintf("b%d.example.org", i), DNSType: 1})
+		}
+		reps = 1
+	}
+	newEngines := func(s *filterlist.RuleStorage) *workload.Engines {
+		if big {
+			return &workload.Engines{Storage: s, DNS: urlfilter.NewDNSEngine(s)}
+		}
+		return workload.NewEngines(s)
+	}
+
 	base, err := disk.Build(lists, env.Dir, false)
 	if err != nil {
 		out.Invalid, out.InvalidReason = true, "build: "+err.Error()
@@ -442,9 +475,9 @@ func runC19Seq(ch *core.Chooser, env *Env, out *Outcome) *Outcome {
 			return out
 		}
 		perr := safely(func() {
-			e := workload.NewEngines(ref.Storage)
+			e := newEngines(ref.Storage)
 			for i := range hist {
-				truths = append(truths, computeTruth(e, &hist[i]))
+				truths = append(truths, computeTruth(e, &hist[i], !big))
 			}
 		})
 		ref.Cleanup()
@@ -466,13 +499,23 @@ func runC19Seq(ch *core.Chooser, env *Env, out *Outcome) *Outcome {
 	filterlist.VerifSetHooks(filterlist.VerifHooks{Yield: core.MainHooks()})
 	defer filterlist.VerifSetHooks(filterlist.VerifHooks{})
 	var e *workload.Engines
-	if perr := safely(func() { e = workload.NewEngines(sub.Storage) }); perr != "" {
+	P := map[rkey]bool{}
+	if perr := safely(func() {
+		e = newEngines(sub.Storage)
+		// the flood: every rule of the big list is materialised and served
+		for i := 0; i < bigN; i++ {
+			served(workload.Exec(e, &workload.Op{Kind: workload.OpDNS, Host: fmt.Sprintf("b%d.example.org", i), DNSType: 1}), P)
+		}
+	}); perr != "" {
 		out.Invalid, out.InvalidReason = true, perr
 		return out
 	}
+	if big {
+		out.Probes["big_list_runs"]++
+		out.Probes["rules_materialised_by_floods"] += len(P)
+	}
 	inMem := inMemIDs(lists)
 	copies := lineCopies(lists)
-	P := map[rkey]bool{}
 	faulted := false
 	changed := 0
 	var rendered []string
@@ -482,39 +525,31 @@ func runC19Seq(ch *core.Chooser, env *Env, out *Outcome) *Outcome {
 			out.Sample = map[string]any{"mode": "sequential history", "lists": renderPlans(lists), "history": rendered, "fault_plan": env.Params}
 		}
 	}
-	for i := range hist {
-		for _, f := range [][3]int{{fp.at, fp.kind, fp.target}, {fp.at2, fp.kind2, fp.target2}} {
-			if f[0] == i && f[1] < disk.NumFaultKinds && f[2] < len(sub.Lists) && sub.Applicable(f[1], f[2]) {
-				if err := sub.Inject(f[1], f[2], env.Dir, fp.n); err != nil {
-					out.Invalid, out.InvalidReason = true, "inject: "+err.Error()
-					return out
-				}
-				faulted = true
-				out.Faults[faultName(f[1])]++
-				rendered = append(rendered, fmt.Sprintf("FAULT %s on list #%d", faultName(f[1]), f[2]))
-			}
-		}
+	firstFault := -1
+	ask := func(i int) bool {
 		o := &hist[i]
 		var res *workload.Result
 		if perr := safely(func() { res = workload.Exec(e, o) }); perr != "" {
 			rendered = append(rendered, "query "+o.Key()+" -> PANIC")
 			sample()
 			out.Violation = &Violation{Class: "panic:" + opClass(o), Detail: fmt.Sprintf("query %d %s panicked (faulted=%t)\n%s", i, o.Key(), faulted, perr)}
-			return out
+			return false
 		}
 		var full string
 		if perr := safely(func() { full = res.CanonFull() }); perr != "" {
 			sample()
 			out.Violation = &Violation{Class: "panic:derived:" + opClass(o), Detail: fmt.Sprintf("evaluating the result of query %d %s panicked (faulted=%t)\n%s", i, o.Key(), faulted, perr)}
-			return out
+			return false
 		}
 		h = fnv(h, full)
-		rendered = append(rendered, fmt.Sprintf("query %s -> %s", o.Key(), trunc(res.Canon(), 300)))
+		if len(rendered) < 120 {
+			rendered = append(rendered, fmt.Sprintf("query %s -> %s", o.Key(), trunc(res.Canon(), 300)))
+		}
 		if !faulted {
 			if full != truths[i].full {
 				sample()
 				out.Violation = &Violation{Class: "prefault-mismatch:" + opClass(o), Detail: fmt.Sprintf("before any fault, query %d %s\n got:  %s\n want: %s", i, o.Key(), full, truths[i].full)}
-				return out
+				return false
 			}
 		} else {
 			if full != truths[i].full {
@@ -523,10 +558,41 @@ func runC19Seq(ch *core.Chooser, env *Env, out *Outcome) *Outcome {
 			if class, detail := checkDegraded(o, res, truths[i], P, inMem, copies); class != "" {
 				sample()
 				out.Violation = &Violation{Class: class, Detail: fmt.Sprintf("query %d %s after fault plan %v\n%s\n got:        %s\n fault-free: %s", i, o.Key(), env.Params, detail, res.Canon(), truths[i].full)}
-				return out
+				return false
 			}
 		}
 		served(res, P)
+		return true
+	}
+	for i := range hist {
+		for _, f := range [][3]int{{fp.at, fp.kind, fp.target}, {fp.at2, fp.kind2, fp.target2}} {
+			if f[0] == i && f[1] < disk.NumFaultKinds && f[2] < len(sub.Lists) && sub.Applicable(f[1], f[2]) {
+				if err := sub.Inject(f[1], f[2], env.Dir, fp.n); err != nil {
+					out.Invalid, out.InvalidReason = true, "inject: "+err.Error()
+					return out
+				}
+				if !faulted {
+					firstFault = i
+				}
+				faulted = true
+				out.Faults[faultName(f[1])]++
+				rendered = append(rendered, fmt.Sprintf("FAULT %s on list #%d", faultName(f[1]), f[2]))
+			}
+		}
+		if !ask(i) {
+			return out
+		}
+	}
+	if faulted && reps > 1 {
+		rendered = append(rendered, fmt.Sprintf("the %d queries after the fault are asked %d more times", len(hist)-firstFault, reps-1))
+		for r := 1; r < reps; r++ {
+			for i := firstFault; i < len(hist); i++ {
+				if !ask(i) {
+					return out
+				}
+			}
+		}
+		out.Probes["post_fault_tail_repetitions"] += reps - 1
 	}
 	out.Steps = len(hist)
 	out.RunHash = fnv(h, fmt.Sprint(fp))
@@ -536,7 +602,13 @@ func runC19Seq(ch *core.Chooser, env *Env, out *Outcome) *Outcome {
 		out.Probes["fault_plans_with_no_visible_effect"] = 1
 	}
 	if fp.at < 0 {
-		out.FaultPlans = enumeratePlans(sub, len(hist))
+		instants := len(hist)
+		if big {
+			// re-running the flood for every instant is too dear: the fault
+			// lands right after the flood
+			instants = 1
+		}
+		out.FaultPlans = enumeratePlans(sub, instants)
 		out.Probes["seq_bases"] = 1
 	}
 	out.States = append(out.States, uint64(fp.at+1)<<20^uint64(fp.kind)<<8^uint64(fp.target)<<4^uint64(len(hist)))
@@ -579,7 +651,7 @@ func runC19Conc(ch *core.Chooser, env *Env, out *Outcome) *Outcome {
 			e := workload.NewEngines(ref.Storage)
 			for i := range p.pool {
 				before := cnt()
-				truths = append(truths, computeTruth(e, &p.pool[i]))
+				truths = append(truths, computeTruth(e, &p.pool[i], true))
 				seq = append(seq, cnt()-before)
 			}
 		})
